@@ -56,3 +56,44 @@ Print Assumptions C04_gap_closes_partial.
 Print Assumptions C04_rewant_announced.
 Print Assumptions C04_full_exact_refuted.
 Print Assumptions C04_gap_closes_refuted.
+
+(* ---- lifted (package K): every peer entry of Client.v — and of every node of a reachable net — is a state of the Wantlist.v
+   history model, so the view theorems above apply to it literally. *)
+From BS Require Import Types Wantlist Wantlist_proofs2 Client Client_proofs Client_proofs4 Net Net_proofs Net_proofs6 Net_props Net_proofs2 Net_proofs5 Net_proofs21 Net_proofs40 Net_proofs41 Net_proofs42 Net_proofs43 Net_proofs44 Net_proofs45 Net_proofs46 Net_proofs47 Server Net_props4.
+From Coq Require Import ZArith Lia.
+Open Scope N_scope.
+
+Theorem client_state_is_history :
+  forall (sdh : bool) (ops : list cop) (p : peer) (ps : peer_state),
+  In (p, ps) (cs_peers (st_after sdh ops)) ->
+  exists h : list hev,
+    st_of sdh h = (cs_wl (st_after sdh ops), p_wl ps) /\
+    haves_ok (fun (c : cid) (b : bool) => got_pres p c b ops) h.
+Proof. exact (@Net_props4.client_state_is_history). Qed.
+
+Theorem C04_net_view_sound :
+  forall (Sz : N) (Hh : hash_fn) (n : nat) (ops : list nop) (i : N) (j : peer) (ni : node) (ps : peer_state),
+  get_node (fst (nrun Sz Hh (net_init n) ops)) i = Some ni ->
+  In (j, ps) (cs_peers (n_client ni)) ->
+  nothing_to_send (cs_wl (n_client ni), p_wl ps) ->
+  exists h : list hev,
+    st_of true h = (cs_wl (n_client ni), p_wl ps) /\
+    pres_free h /\ (forall c : cid, In c (g_view (lit_ghost true h)) -> In c (wl_cids (cs_wl (n_client ni)))).
+Proof. exact (@Net_props4.C04_net_view_sound). Qed.
+
+Theorem C04_net_view_complete :
+  forall (Sz : N) (Hh : hash_fn) (n : nat) (ops : list nop) (i : N) (j : peer) (ni : node) (ps : peer_state),
+  get_node (fst (nrun Sz Hh (net_init n) ops)) i = Some ni ->
+  In (j, ps) (cs_peers (n_client ni)) ->
+  nothing_to_send (cs_wl (n_client ni), p_wl ps) ->
+  exists h : list hev,
+    st_of true h = (cs_wl (n_client ni), p_wl ps) /\
+    pres_free h /\
+    (forall c : cid,
+     In c (wl_cids (cs_wl (n_client ni))) ->
+     In c (g_view (lit_ghost true h)) \/ In c (g_delivered (lit_ghost true h))).
+Proof. exact (@Net_props4.C04_net_view_complete). Qed.
+
+Print Assumptions client_state_is_history.
+Print Assumptions C04_net_view_sound.
+Print Assumptions C04_net_view_complete.
